@@ -218,3 +218,87 @@ def seq_eq(xs, ys):
         else:
             cs.append(z3.BoolVal(a == b))
     return z3.And(*cs) if cs else z3.BoolVal(True)
+
+
+REJECTIONS = None
+
+
+def rejections():
+    e = H.pdt.errors
+    return (ValueError, TypeError, e.ColumnNotFoundError, e.DataTypeError, e.FunctionTypeError, e.SubqueryError)
+
+
+def reserved_name_facts(names):
+    """column names the Python call syntax / Table.__getattr__ cannot carry (excluded by assumption)"""
+    out = []
+    for nm in names:
+        for d in ("__copy__", "__deepcopy__", "__setstate__", "__getstate__", "self", "table"):
+            out.append(nm.t != z3.StringVal(d))
+    return out
+
+
+@contextlib.contextmanager
+def deterministic_uuids():
+    """uuid.uuid1() yields the same fresh values on every re-execution of a path (A-uuid: still fresh,
+    i.e. different from every uuid of the pre-state)"""
+    real = _uuid.uuid1
+    cnt = itertools.count(1)
+    _uuid.uuid1 = lambda *a, **k: _uuid.UUID(int=(0xFEED << 96) + next(cnt))
+    try:
+        yield
+    finally:
+        _uuid.uuid1 = real
+
+
+def explore_step(pres, fn, backend="polars", extra_facts=(), sql_state_kw=None, max_paths=4000):
+    """Symbolically execute one verb step.  fn(pres, tables) -> new Table.
+    Returns (paths, wit): each path value is ("rejected", exc) or ("ok", new, state, aux) where
+    state is the backend state computed by the real compile_ast for the new node; aux holds the
+    export select (polars) / the SELECT model (sql)."""
+    from .core import explore
+
+    wit = {}
+    facts = list(extra_facts)
+    allnames = []
+    for p in pres:
+        for i, nm in enumerate(p.phys):
+            wit[f"{p.tag}.name{i}"] = nm.t
+        for i, nm in enumerate(p.cname):
+            wit[f"{p.tag}.cname{i}"] = nm.t
+        facts += p.facts
+        allnames += p.phys + p.cname
+    news = [SymName(k) for k in ("r0", "r1", "k0", "k1", "sfx")]
+    for n in news:
+        wit[str(n.t)] = n.t
+    facts += reserved_name_facts(allnames + news[:4])
+    if backend != "polars":
+        for p in pres:
+            p.backend_cls = H.sqlite_backend.SqliteImpl
+
+    def body():
+        tables = [p.table() for p in pres]
+        ctxm = polars_step(pres) if backend == "polars" else sql_step(pres, sql_state_kw)
+        with deterministic_uuids(), ctxm as real_compile:
+            try:
+                new = fn(pres, tables)
+            except rejections() as e:
+                return ("rejected", e, tables)
+            node = new._ast
+            if backend == "polars":
+                state = real_compile(node)
+                df, name_in_df, select, _ = state
+                exported = df.select(*(name_in_df[u] for u in select))
+                lookup = {u: (pn, df.cols[pn] if pn in df.cols else None) for u, pn in name_in_df.items()}
+                aux = {"exported": exported, "lookup": lookup}
+            else:
+                final = Cache.selected_cols(new._cache)
+                needed = {c._uuid: 1 for c in final}
+                if isinstance(node, verbs_tree.Alias) and node.uuid_map is not None:
+                    inv = {v: k for k, v in node.uuid_map.items()}
+                    needed = {inv[u]: 1 for u in needed}
+                state = real_compile(node, needed)
+                aux = H.sqlite_backend.SqliteImpl.compile_query(*state)
+            return ("ok", new, state, aux, tables)
+
+    paths = explore(body, base_pc=facts, catch=(Exception,), max_paths=max_paths)
+    return paths, wit
